@@ -9,6 +9,7 @@ spec/SplitCT.tla   common-type fill/compute, fill/request, __call__ and Zip (res
 spec/Trace_Split.tla   validation of recorded runs of larger configurations
 """
 import collections
+import itertools
 import random
 
 from .. import core
@@ -72,7 +73,7 @@ def make_or_violation(ctx, brs, bs, copy_buf):
 
 def run_list(s, flow):
     with sl.deadline(3):
-        return [sl.untag(v) for v in s.run(flow)]
+        return [sl.untag(v) for v in itertools.islice(s.run(flow), sl.CAP)]
 
 
 # ---------------------------------------------------------------------------------------------- odd values
@@ -182,7 +183,7 @@ def replay_run(ctx, rec, idx=0):
                 bld.hreset()
                 try:
                     with sl.deadline(3):
-                        got = [sl.untag(v) for v in s.run(iter(objs))]
+                        got = [sl.untag(v) for v in itertools.islice(s.run(iter(objs)), sl.CAP)]
                 except Exception as exc:   # noqa
                     got = "raised " + exc_name(exc)
                 # values are compared by type and equality: whether a branch sees the very object or a copy
@@ -216,7 +217,7 @@ def replay_run(ctx, rec, idx=0):
                 got, err = [], None
                 try:
                     with sl.deadline(3):
-                        for v in s.run(sl.raising_flow(n, cut["pos"])):
+                        for v in itertools.islice(s.run(sl.raising_flow(n, cut["pos"])), sl.CAP):
                             got.append(sl.untag(v))
                 except sl.FlowBoom:
                     err = "FlowBoom"
@@ -237,8 +238,8 @@ def replay_run(ctx, rec, idx=0):
                 g1 = s.run(iter(range(n)))
                 with sl.deadline(3):
                     first = [sl.untag(v) for v in sl.take(g1, cut["n"])]
-                    second = [sl.untag(v) for v in s.run(iter(range(n)))]
-                    rest = [sl.untag(v) for v in g1]
+                    second = [sl.untag(v) for v in itertools.islice(s.run(iter(range(n))), sl.CAP)]
+                    rest = [sl.untag(v) for v in itertools.islice(g1, sl.CAP)]
             except Exception as exc:   # noqa
                 first, second, rest = "raised " + exc_name(exc), None, []
             if isinstance(first, str) or first + rest != exp or second != exp:
@@ -249,12 +250,18 @@ def replay_run(ctx, rec, idx=0):
     return ok
 
 
+class SubSource(object):
+    cls = None
+
+
 def ct_elements(kind, nb, ms, form):
     import lena.core
+    if SubSource.cls is None:
+        SubSource.cls = type("MySource", (lena.core.Source,), {})
     els = []
     for b in range(nb):
         if kind == "src":
-            els.append(lena.core.Source(sl.TSrc(b + 1, ms[b])))
+            els.append((SubSource.cls if form == "sub" else lena.core.Source)(sl.TSrc(b + 1, ms[b])))
             continue
         el = sl.TFC(b + 1, None, ms[b]) if kind == "fc" else sl.TFR(b + 1, None, ms[b])
         if form == "tup":
@@ -288,6 +295,11 @@ def replay_ct(ctx, rec):
                           {"scenario": rec, "exception": repr(exc)})
             return False
         try:
+            if rec.get("prerun"):
+                # the object has been used through run before: run leaves it as it was
+                list(itertools.islice(obj.run(iter(range(2))), 100))
+                for el in els:
+                    el.hreset()
             outs = []
             for op in rec["hist"]:
                 if op[0] == "f":
@@ -323,7 +335,7 @@ def replay_ct(ctx, rec):
         if kind == "fc" and not zipped and rec["hist"] and rec["hist"][-1][0] == "c":
             n = sum(1 for op in rec["hist"] if op[0] == "f")
             els2 = ct_elements(kind, nb, ms, form)
-            r = [sl.untag(x) for x in lena.core.Split(els2, copy_buf=copy_buf).run(iter(range(n)))]
+            r = [sl.untag(x) for x in itertools.islice(lena.core.Split(els2, copy_buf=copy_buf).run(iter(range(n))), sl.CAP)]
             if r != got[-1]["s"]:
                 ctx.violation("Split:fill+compute!=run", {"scenario": rec, "run": r, "fill_compute": got[-1]["s"]})
                 good = False
@@ -376,10 +388,13 @@ def misc(ctx):
         "fr": (lambda: [sl.TFR(1), lena.core.FillRequestSeq(sl.TFR(2), reset=False, buffer_input=True)], ("fill", "request")),
     }
     for name, (els, meths) in offered.items():
-        s = lena.core.Split(els(), bufsize=3)
         ctx.case(["offers", name])
-        if not all(callable(getattr(s, m, None)) for m in meths):
-            ctx.violation("common-type:%s:methods-not-offered" % name, {"methods": meths})
+        try:
+            s = lena.core.Split(els(), bufsize=3)
+            if not all(callable(getattr(s, m, None)) for m in meths):
+                ctx.violation("common-type:%s:methods-not-offered" % name, {"methods": meths})
+        except Exception as exc:   # noqa
+            ctx.violation("common-type:%s:raised:%s" % (name, exc_name(exc)), {"exception": repr(exc)})
     # Zip: fields must match the number of sequences
     expect_exc(ctx, "Zip:fields-length", lambda: lena.flow.Zip([sl.TFC(1), sl.TFC(2)], fields=["a"]), lena.core.LenaTypeError)
     expect_exc(ctx, "Zip:fields-length:3", lambda: lena.flow.Zip([sl.TFC(1)], fields=["a", "b", "c"]), lena.core.LenaTypeError)
